@@ -18,6 +18,7 @@ function panicName(e) {
   const m = String(e && e.message);
   if (/send on closed channel/.test(m)) return 'panic:send-closed';
   if (/close of closed channel/.test(m)) return 'panic:close-closed';
+  if (/close of nil channel/.test(m)) return 'panic:close-nil';
   if (/Cannot read properties of null \(reading 'zero'\)/.test(m)) return 'panic:nil-elem';
   // anything else the runtime throws is an observation too (a changed runtime must show up as a
   // disagreement with the model, never as a harness failure)
